@@ -565,6 +565,17 @@ class _B:
                 stride = 2
             if pad == 'none':
                 k, dil = 1, 1
+            elif pad == 'valid':
+                # un-padded convolution with a real kernel (the output gets shorter); only where
+                # the sequence is long enough and the shape need not be kept
+                if keep_shape or L < 5:
+                    pad, k, dil = 'none', 1, 1
+                else:
+                    k = d(st.integers(2, min(p.kmax, (L - 1) // 2 + 1)))
+                    dil = 1 if (k - 1) * 2 >= L else d(st.sampled_from([1, 1, 2]))
+                    while (k - 1) * dil >= L:
+                        dil = 1
+                        k -= 1
             else:
                 k = d(st.integers(1, p.kmax))
                 dil = d(st.sampled_from(p.dil))
